@@ -156,7 +156,13 @@ type E3 struct {
 	p           *Prog
 	rngMemo     map[ssa.Value]ival
 	inprog      map[ssa.Value]bool
+	inprogAt    map[ssa.Value]int // depth at which a value in progress was entered
+	rngDepth    int
+	minHit      int // smallest depth of an in-progress value that the current computation ran into
+	unmemo      int
 	retMemo     map[retKey]ival
+	retGe       map[*ssa.Function][]int // result ≥ argument k summaries (retGeParams)
+	paramProg   map[*ssa.Parameter]bool
 	retProg     map[retKey]bool
 	contract    map[*ssa.Function]*lenContract // verified repo contracts (nil entry = none)
 	conProg     map[*ssa.Function]bool
@@ -430,6 +436,7 @@ func (e *E3) paramRng(pr *ssa.Parameter, tr ival) ival {
 									e.fnUse[sc] = u
 								}
 								u.calls = append(u.calls, cc)
+								u.blocks = append(u.blocks, b)
 							}
 						}
 					}
@@ -455,11 +462,23 @@ func (e *E3) paramRng(pr *ssa.Parameter, tr ival) ival {
 		return tr
 	}
 	out := ival{inf, -inf}
-	for _, cc := range u.calls {
+	for ci, cc := range u.calls {
 		if idx >= len(cc.Args) {
 			return tr
 		}
 		a := e.rng(cc.Args[idx])
+		// the interval of the argument is flow-insensitive; a guard in front of the call (`d >= 0 && … f(x, d)`)
+		// is seen by the path-sensitive prover
+		if a.lo < 0 && !e.paramProg[pr] {
+			if e.paramProg == nil {
+				e.paramProg = map[*ssa.Parameter]bool{}
+			}
+			e.paramProg[pr] = true
+			if e.ProveLE(u.blocks[ci], zeroT, e.termOf(cc.Args[idx]), 0) {
+				a.lo = 0
+			}
+			delete(e.paramProg, pr)
+		}
 		if a.lo < out.lo {
 			out.lo = a.lo
 		}
@@ -475,6 +494,7 @@ func (e *E3) paramRng(pr *ssa.Parameter, tr ival) ival {
 
 type fnUseT struct {
 	calls   []*ssa.CallCommon
+	blocks  []*ssa.BasicBlock // the block of each call
 	escapes bool
 }
 
@@ -752,16 +772,47 @@ func (e *E3) rng(v ssa.Value) ival {
 	}
 	tr := typeRange(v.Type())
 	if e.inprog[v] {
+		// a cycle: the type range stands in for the value. Whatever is computed from it before the cycle's
+		// root (the value in progress at depth inprogAt[v]) is finished depends on that stand-in and is
+		// not final: it is returned but not memoised (below), so that the order in which values are first
+		// asked for does not decide how precise their memoised range is.
+		if d := e.inprogAt[v]; d < e.minHit {
+			e.minHit = d
+		}
 		return tr
 	}
+	if e.inprogAt == nil {
+		e.inprogAt = map[ssa.Value]int{}
+		e.minHit = 1 << 30
+	}
+	depth := e.rngDepth
+	e.rngDepth++
 	e.inprog[v] = true
+	e.inprogAt[v] = depth
+	savedMin := e.minHit
+	e.minHit = 1 << 30
 	r := e.rng1(v, tr)
 	delete(e.inprog, v)
+	delete(e.inprogAt, v)
+	e.rngDepth--
+	myMin := e.minHit
+	if savedMin < myMin {
+		e.minHit = savedMin
+	}
 	// clamp to the type range (wrap-around ⇒ whole range)
 	if !r.within(tr) {
 		if r.lo < tr.lo || r.hi > tr.hi {
 			r = tr
 		}
+	}
+	if myMin < depth && e.unmemo < 2000000 {
+		// depends on the stand-in of an ancestor still in progress (bounded: beyond the budget the old
+		// behaviour - memoise the sound but possibly wider range - keeps the run time linear)
+		e.unmemo++
+		return r
+	}
+	if myMin >= depth {
+		e.minHit = savedMin
 	}
 	e.rngMemo[v] = r
 	return r
@@ -953,7 +1004,18 @@ func (e *E3) rng1(v ssa.Value, tr ival) ival {
 				return ival{0, 64}
 			}
 			if isRepoFn(sc) && sc.Blocks != nil {
-				return e.retRng(sc, 0)
+				out := e.retRng(sc, 0)
+				// result ≥ argument k (retGeParams): the argument's lower bound is the result's
+				if x.Call.Signature().Recv() == nil {
+					for _, k := range e.retGeParams(sc) {
+						if k < len(x.Call.Args) {
+							if a := e.rng(x.Call.Args[k]); a.lo > out.lo {
+								out.lo = a.lo
+							}
+						}
+					}
+				}
+				return out
 			}
 		}
 		return tr
@@ -1647,6 +1709,17 @@ func (g *factGraph) touch(t termT, d int) {
 	case *ssa.Call:
 		// searches of the standard library: −1 ≤ r, and r ≤ len(s) − 1 for a byte search (r ≤ len(s) for a
 		// substring search, whose needle may be empty)
+		// helpers of the repository that return one of their integer parameters, possibly advanced (a skip
+		// loop `for i < len(b) && p(b[i]) { i++ }; return i`): result ≥ that argument
+		if sc := x.Call.StaticCallee(); sc != nil && isRepoFn(sc) && sc.Blocks != nil && isIntType(x.Type()) && x.Call.Signature().Recv() == nil {
+			for _, k := range e.retGeParams(sc) {
+				if k < len(x.Call.Args) {
+					at := e.termOf(x.Call.Args[k])
+					g.touch(at, d+1)
+					g.add(t, at, 0) // arg − ret ≤ 0
+				}
+			}
+		}
 		if sc := x.Call.StaticCallee(); sc != nil && sc.Pkg != nil && (sc.Pkg.Pkg.Path() == "strings" || sc.Pkg.Pkg.Path() == "bytes") && len(x.Call.Args) >= 1 && isIntType(x.Type()) {
 			slack := int64(-2)
 			switch sc.Name() {
@@ -2489,6 +2562,54 @@ func (e *E3) proveLE(at *ssa.BasicBlock, a, b termT, c int64, depth int) bool {
 			}
 		}
 	}
+	// a = affine form (64-bit, wrap-free) containing one acyclic phi with coefficient 1, e.g. (o+1) + b with
+	// b = phi(−1, j−o−1): substitute each edge value; when the form collapses to one SSA value plus a constant
+	// (o, resp. j) prove that on the incoming edge
+	if bo, ok := a.v.(*ssa.BinOp); ok && !a.len && is64(bo.Type()) && (bo.Op == token.ADD || bo.Op == token.SUB) {
+		if af := affineWide(bo); af != nil {
+			for tv, kf := range af.Terms {
+				phi, isP := tv.(*ssa.Phi)
+				if !isP || kf != 1 || phiHasBackEdge(phi) || !phi.Block().Dominates(at) || !is64(phi.Type()) {
+					continue
+				}
+				rest := af.clone()
+				delete(rest.Terms, tv)
+				all := true
+				for i, ed := range phi.Edges {
+					ea := affineWide(ed)
+					if ea == nil {
+						all = false
+						break
+					}
+					sum := rest.addScaled(ea, 1)
+					var single ssa.Value
+					okSingle := len(sum.Terms) <= 1
+					for sv, sk := range sum.Terms {
+						v, isV := sv.(ssa.Value)
+						if !isV || sk != 1 {
+							okSingle = false
+						}
+						single = v
+					}
+					if !okSingle {
+						all = false
+						break
+					}
+					at2 := zeroT
+					if single != nil {
+						at2 = e.termOf(single)
+					}
+					if !e.proveOnEdge(phi.Block().Preds[i], phi.Block(), at2, b, c-sum.C, depth+1) {
+						all = false
+						break
+					}
+				}
+				if all {
+					return true
+				}
+			}
+		}
+	}
 	// phi expansion on a (acyclic phis, or loop phis by induction on the back edges is NOT attempted)
 	if phi, ok := a.v.(*ssa.Phi); ok && !a.len && a.v != nil {
 		if !phiHasBackEdge(phi) {
@@ -2922,3 +3043,108 @@ func (e *E3) nonNil(v ssa.Value, b *ssa.BasicBlock, d int) bool {
 func constantInt(n int64) constant.Value { return constant.MakeInt64(n) }
 
 func describeTerm(t termT) string { return strings.TrimSpace(t.String()) }
+
+// retGeParams: the indices k of f's integer parameters such that every value f returns (single int result) is that
+// parameter or a loop-carried copy of it that is only ever advanced by a non-negative 64-bit-safe constant step:
+// result ≥ argument k at every call. (`int` counters advanced by +k inside a loop whose condition bounds them by a
+// slice length cannot wrap; anything else is refused.)
+func (e *E3) retGeParams(f *ssa.Function) []int {
+	if e.retGe == nil {
+		e.retGe = map[*ssa.Function][]int{}
+	}
+	if r, ok := e.retGe[f]; ok {
+		return r
+	}
+	e.retGe[f] = nil
+	if f.Signature.Results().Len() != 1 || !isIntType(f.Signature.Results().At(0).Type()) {
+		return nil
+	}
+	var out []int
+	for k, pk := range f.Params {
+		if !isIntType(pk.Type()) || !is64(pk.Type()) && !isPlainInt(pk.Type()) {
+			continue
+		}
+		ok, any := true, false
+		eachInstr(f, func(_ *ssa.BasicBlock, _ int, in ssa.Instruction) {
+			ret, isRet := in.(*ssa.Return)
+			if !isRet || len(ret.Results) != 1 {
+				return
+			}
+			any = true
+			if !geParamVal(ret.Results[0], pk, map[ssa.Value]bool{}) {
+				ok = false
+			}
+		})
+		if ok && any {
+			out = append(out, k)
+		}
+	}
+	e.retGe[f] = out
+	return out
+}
+
+func isPlainInt(t types.Type) bool {
+	b, ok := t.Underlying().(*types.Basic)
+	return ok && (b.Kind() == types.Int || b.Kind() == types.Int64)
+}
+
+// geParamVal: v ≥ pk by construction — pk itself, a phi of such values, or such a value plus a non-negative constant
+// where the sum is guarded by a `v < len(...)` loop condition (so it cannot wrap).
+func geParamVal(v ssa.Value, pk *ssa.Parameter, seen map[ssa.Value]bool) bool {
+	if v == ssa.Value(pk) {
+		return true
+	}
+	if seen[v] {
+		return true // a cycle through phis adds nothing below pk
+	}
+	seen[v] = true
+	switch x := v.(type) {
+	case *ssa.Phi:
+		for _, ed := range x.Edges {
+			if !geParamVal(ed, pk, seen) {
+				return false
+			}
+		}
+		return true
+	case *ssa.BinOp:
+		if x.Op != token.ADD {
+			return false
+		}
+		k, ok := constInt(x.Y)
+		if !ok || k < 0 || k > 1<<20 {
+			return false
+		}
+		// the addend's operand must be below a slice length where it is advanced
+		if !belowLenAt(x.X, x.Block()) {
+			return false
+		}
+		return geParamVal(x.X, pk, seen)
+	}
+	return false
+}
+
+// belowLenAt: block b is dominated by the true edge of `v < len(s)` (or false edge of `v >= len(s)`).
+func belowLenAt(v ssa.Value, b *ssa.BasicBlock) bool {
+	for _, cd := range condsAt(b) {
+		bo, ok := cd.V.(*ssa.BinOp)
+		if !ok {
+			continue
+		}
+		isLen := func(w ssa.Value) bool {
+			c, ok := w.(*ssa.Call)
+			if !ok {
+				return false
+			}
+			bi, ok := c.Call.Value.(*ssa.Builtin)
+			return ok && bi.Name() == "len"
+		}
+		switch {
+		case cd.True && bo.Op == token.LSS && bo.X == v && isLen(bo.Y),
+			cd.True && bo.Op == token.GTR && bo.Y == v && isLen(bo.X),
+			!cd.True && bo.Op == token.GEQ && bo.X == v && isLen(bo.Y),
+			!cd.True && bo.Op == token.LEQ && bo.Y == v && isLen(bo.X):
+			return true
+		}
+	}
+	return false
+}
